@@ -1,10 +1,91 @@
-"""Loop cuts (inductive invariants). Filled in with the heap model."""
-from .sym import EngineLimit
+"""Loop cuts: a loop with a contract-supplied inductive invariant is verified for ALL iteration counts:
+  entry:      invariant holds with the ghost index at the start            (obligation loop-inv-entry)
+  step:       from an arbitrary state satisfying the invariant (modified heap fields havocked), one execution of the
+              real loop body re-establishes it                             (obligation loop-inv-preserved)
+  exit:       the code after the loop runs from an arbitrary state satisfying the invariant at the final index.
+A body that writes a heap field or local not declared in the loop's modifies list makes the function undecided."""
+import ast
+
+import z3
+
+from . import sym
+from .engine import PathEnd, PyRaise
+from .seq import SeqSlice, SymSeq
+from .sym import EngineLimit, SymInt, zb
 
 
-def while_cut(ip, st, frame, spec):
-    raise EngineLimit("while cut not implemented")
+class LoopSpec:
+    def __init__(self, invariant, modifies_fields=()):
+        self.invariant = invariant  # ctx -> [(slug, boolish)]
+        self.modifies_fields = tuple(modifies_fields)
+
+
+class Ctx:
+    pass
+
+
+def _assigned_names(body):
+    out = set()
+    for st in body:
+        for n in ast.walk(st):
+            if isinstance(n, ast.Name) and isinstance(n.ctx, ast.Store):
+                out.add(n.id)
+    return out
 
 
 def for_cut(ip, st, frame, spec, it):
-    raise EngineLimit("for cut not implemented")
+    from .interp import _Break, _Continue
+    if isinstance(it, SymSeq):
+        it = SeqSlice(it, z3.IntVal(0), it.n)
+    if not isinstance(it, SeqSlice):
+        raise EngineLimit("loop invariant given for a loop over a non-symbolic iterable")
+    if not isinstance(st.target, ast.Name):
+        raise EngineLimit("loop cut with compound target")
+    extra = _assigned_names(st.body) - {st.target.id}
+    if extra:
+        raise EngineLimit("loop body assigns locals %s (no havoc specification)" % sorted(extra))
+    eng = ip.eng
+    seq = it.seq
+    heap = seq.heap
+    lo = it.lo
+    hi = z3.simplify(z3.If(it.hi >= lo, it.hi, lo))
+    entry = heap.snapshot()
+
+    def ctx(k):
+        c = Ctx()
+        c.k, c.lo, c.hi, c.seq, c.locals, c.heap, c.entry, c.frame = k, lo, hi, seq, frame.locals, heap, entry, frame
+        return c
+
+    for slug, g in spec.invariant(ctx(lo)):
+        ip.on_obligation("loop-inv-entry", slug, g)
+    b = eng.choose([None, None], "loop", labels=["arbitrary-iteration", "exit"])
+    for f in spec.modifies_fields:
+        heap.fields[f] = z3.Array(sym.fresh_name("H_" + f + "_havoc"), z3.IntSort(),
+                                  z3.BoolSort() if f.endswith("?none") else z3.IntSort())
+    if b == 0:
+        k = z3.Int(sym.fresh_name("k"))
+        eng.assume(z3.And(lo <= k, k < hi))
+        for slug, g in spec.invariant(ctx(k)):
+            eng.assume(zb(g))
+        before = heap.snapshot()
+        ip.assign(st.target, seq.wrap(z3.Select(seq.arr, k)), frame)
+        try:
+            ip.exec_block(st.body, frame)
+        except _Continue:
+            pass
+        except _Break:
+            raise EngineLimit("break inside a loop cut")
+        for f, arr in heap.fields.items():
+            if f not in spec.modifies_fields and not arr.eq(before[f]):
+                raise EngineLimit("loop body writes heap field %s which is not in the loop's modifies list" % f)
+        for slug, g in spec.invariant(ctx(z3.simplify(k + 1))):
+            ip.on_obligation("loop-inv-preserved", slug, g)
+        raise PathEnd()
+    for slug, g in spec.invariant(ctx(hi)):
+        eng.assume(zb(g))
+    frame.locals.pop(st.target.id, None)
+    ip.exec_block(st.orelse, frame)
+
+
+def while_cut(ip, st, frame, spec):
+    raise EngineLimit("while-loop cuts are not implemented")
